@@ -6,6 +6,7 @@ CONSTANTS
   InitBS = 2
   DevInvalSkipsClean = FALSE
   DevZeroBypassesCache = FALSE
+  DevWriteEvictErrLost = FALSE
   TogglePre = TRUE
 INVARIANT Coherent
 INVARIANT DurableAfterFlush
